@@ -703,7 +703,29 @@ def run_case(ctx, case):
         run_scenario(ctx, case)
 
 
+def witness_gapped(ctx):
+    """Replay of C04_witness_gapped_trajectory on the real code: a trajectory with a gap in its time steps (outside the documented
+    precondition) pairs state and time step wrongly. Recorded as excluded, never judged."""
+    import numpy as np
+    from commonroad.geometry.shape import Rectangle
+    from commonroad.prediction.prediction import TrajectoryPrediction
+    from commonroad.scenario.obstacle import DynamicObstacle, ObstacleType
+    from commonroad.scenario.state import InitialState, KSState
+    from commonroad.scenario.trajectory import Trajectory
+    try:
+        tr = Trajectory(3, [KSState(time_step=t, position=np.array([float(t), 0.0]), orientation=0.0, velocity=1.0) for t in (3, 5, 6)])
+        ob = DynamicObstacle(1, ObstacleType.CAR, Rectangle(4, 2), InitialState(time_step=2, position=np.array([0.0, 0.0]), orientation=0.0,
+                             velocity=0.0, acceleration=0.0, yaw_rate=0.0, slip_angle=0.0), TrajectoryPrediction(tr, Rectangle(4, 2)))
+        st, occ = ob.state_at_time(4), ob.occupancy_at_time(4)
+        as_model = st is not None and st.time_step == 5 and occ is None
+    except Exception:  # noqa  (e.g. a constructor that rejects gapped trajectories: then the precondition is enforced)
+        as_model = False
+    ctx.excluded += 1
+    ctx.tag("witness/gapped-trajectory:" + ("as-model" if as_model else "differs-from-model"))
+
+
 def run(ctx):
+    witness_gapped(ctx)
     for p in sorted(glob.glob(os.path.join(CORPUS_DIR, "C04", "*.json"))):
         run_case(ctx, json.load(open(p)))
     for _ in range(ctx.n(900)):
